@@ -36,12 +36,12 @@ RULE = ("(a) cases: (line sequence chunk, configuration); one execution per data
 ASSUMPTIONS = ["finite value alphabets", "output paths are always fresh (the library prompts before overwriting)"]
 REQUIRED_CLASSES = ['ineligible-line-skipped', 'all-eligible', 'selector-cuts', 'without-model-fluxes', 'with-model-fluxes', 'mode-2d', 'mode-3d', 'format-v2', 'history-depth-2',
                     'form-path', 'form-object', 'form-list', 'op-plot', 'op-filter_output', 'op-write_parameters', 'op-write_parameter_ranges', 'op-extract_parameters',
-                    'nan-inf-record-roundtrip', 'longer-file']
+                    'nan-inf-record-roundtrip', 'longer-file', 'law-in-other-unit']
 TIMEOUT = {'quick': 900, 'thorough': 3600}
 
 KINDS = {'A': (1, 1, 1), 'B': (1, 4, 3), 'C': (1, 0, 9), 'D': (0, 2, 3)}
 B3 = ['B1', 'B3', 'B5']
-AXES_A = {'n_data_min': [2, 1, 3], 'sel': [('A', 0), ('N', 2), ('F', 3.0)], 'conv': [True, False], 'fmt': ['v1', 'v2'], 'mode': ['2d', '3d']}
+AXES_A = {'n_data_min': [2, 1, 3], 'sel': [('A', 0), ('N', 2), ('F', 3.0)], 'conv': [True, False], 'fmt': ['v1', 'v2'], 'mode': ['2d', '3d'], 'law': ['power', 'nonmono@nm']}
 SELS_B = [('N', 1), ('N', 3), ('A', 0), ('F', 2.0)]
 
 
@@ -124,7 +124,9 @@ def _part_a(ctx, case, rec, d):
     if fmt == 'v2':
         rec.cls('format-v2')
     names = fc.names_for(5)
-    k = fc.law_k('power', [fc.BAND_WAV[b] for b in B3])
+    k = fc.law_k(cfg.get('law', 'power'), [fc.BAND_WAV[b] for b in B3])
+    if cfg.get('law', 'power') != 'power':
+        rec.cls('law-in-other-unit')
     if mode == '2d':
         f = fc.grid2d(seed * 10 + 13, n_models=5, bands=B3, special=False)
         md = fc.build_package(d, 'pkg', {'fmt': fmt, 'names': names, 'bands': B3, 'flux': f})
@@ -133,7 +135,7 @@ def _part_a(ctx, case, rec, d):
         ap, t = fc.grid3d(seed * 10 + 14, n_models=5, n_ap=3, bands=B3)
         md = fc.build_package(d, 'pkg', {'fmt': fmt, 'names': names, 'bands': B3, 'apertures': ap, 'tables': t, 'logd_step': 0.25})
         base = t[2][:, 1] * 10 ** (1.2 * k) * 0.5
-    law = fc.law_object('power')
+    law = fc.law_object(cfg.get('law', 'power'))
     kw = dict(extinction_law=law, av_range=[0.0, 6.0], distance_range=np.array([0.5, 4.0]) * u.kpc)
     theta = np.ones(3) * u.arcsec
     ref_fitter = Fitter(list(B3), theta, md, **kw)
